@@ -53,29 +53,29 @@ fn info_row(key: &[i64], i: &ShortestPathInfo<i64>) -> Vec<i64> {
     r
 }
 
-fn single_obs(m: &HashMap<i64, ShortestPathInfo<i64>>, o: &mut Out) {
+fn single_obs(m: &HashMap<i64, ShortestPathInfo<i64>>, o: &mut Out, f: f64) {
     let mut rows = vec![];
     let mut fl = vec![];
     for (k, i) in m {
         rows.push(info_row(&[*k], i));
-        fl.push(i.distance);
+        fl.push(i.distance / f);
     }
     o.obs(1040, &rows, &fl);
 }
 
-fn pairs_obs(m: &HashMap<i64, HashMap<i64, ShortestPathInfo<i64>>>, o: &mut Out) {
+fn pairs_obs(m: &HashMap<i64, HashMap<i64, ShortestPathInfo<i64>>>, o: &mut Out, f: f64) {
     let mut rows = vec![];
     let mut fl = vec![];
     for (s, mm) in m {
         for (k, i) in mm {
             rows.push(info_row(&[*s, *k], i));
-            fl.push(i.distance);
+            fl.push(i.distance / f);
         }
     }
     o.obs(1041, &rows, &fl);
 }
 
-fn involving_obs(l: &[ShortestPathInfo<i64>], o: &mut Out) {
+fn involving_obs(l: &[ShortestPathInfo<i64>], o: &mut Out, f: f64) {
     let mut rows = vec![];
     let mut fl = vec![];
     for i in l {
@@ -84,7 +84,7 @@ fn involving_obs(l: &[ShortestPathInfo<i64>], o: &mut Out) {
             _ => vec![-1, -1],
         };
         rows.push(info_row(&key, i));
-        fl.push(i.distance);
+        fl.push(i.distance / f);
     }
     o.obs(1042, &rows, &fl);
 }
@@ -101,7 +101,10 @@ fn call(g: &Arc<G>, t: &mut Toks, o: &mut Out) {
     let cf = t.i();
     let cn = t.i();
     let cd = t.i();
-    let cutoff = if cf != 0 { Some(cn as f64 / cd as f64) } else { None };
+    // distances of a weighted search carry the case's dyadic weight scale: the cutoff is scaled
+    // with the weights and the reported distances are scaled back (exact, see obs::WSCALE)
+    let sc = if weighted { wfactor() } else { 1.0 };
+    let cutoff = if cf != 0 { Some(cn as f64 / cd as f64 * sc) } else { None };
     let fo = t.i() != 0;
     let wp = t.i() != 0;
     let g = g.clone();
@@ -111,7 +114,7 @@ fn call(g: &Arc<G>, t: &mut Toks, o: &mut Out) {
             if let Some(r) = watched(o, move || dijkstra::single_source(&*g, weighted, s0, target, cutoff, fo, wp)) {
                 o.obs(1, &[vec![code_of(&r)]], &[]);
                 if let Ok(m) = r {
-                    single_obs(&m, o);
+                    single_obs(&m, o, sc);
                     o.obs(45, &[vec![1]], &[]);
                 }
             }
@@ -120,7 +123,7 @@ fn call(g: &Arc<G>, t: &mut Toks, o: &mut Out) {
             if let Some(r) = watched(o, move || dijkstra::multi_source(&*g, weighted, sources, target, cutoff, fo, wp)) {
                 o.obs(1, &[vec![code_of(&r)]], &[]);
                 if let Ok(m) = r {
-                    pairs_obs(&m, o);
+                    pairs_obs(&m, o, sc);
                     o.obs(45, &[vec![1]], &[]);
                 }
             }
@@ -129,7 +132,7 @@ fn call(g: &Arc<G>, t: &mut Toks, o: &mut Out) {
             if let Some(r) = watched(o, move || dijkstra::all_pairs(&*g, weighted, target, cutoff, fo, wp)) {
                 o.obs(1, &[vec![code_of(&r)]], &[]);
                 if let Ok(m) = r {
-                    pairs_obs(&m, o);
+                    pairs_obs(&m, o, sc);
                     o.obs(45, &[vec![1]], &[]);
                 }
             }
@@ -138,7 +141,7 @@ fn call(g: &Arc<G>, t: &mut Toks, o: &mut Out) {
             let x = sources[0];
             if let Some(l) = watched(o, move || dijkstra::get_all_shortest_paths_involving(&*g, x, weighted)) {
                 o.obs(1, &[vec![0]], &[]);
-                involving_obs(&l, o);
+                involving_obs(&l, o, sc);
                 o.obs(45, &[vec![1]], &[]);
             }
         }
